@@ -73,3 +73,9 @@ Definition compared (c : case) : nat :=
     n + (if computable (qvalue l k) then 1 else 0)
       + (if computable (qerr2 (rho_of tbl) l k) then 1 else 0)
       + length (filter (fun md => computable (qderiv l k (fst md))) ds))%nat 0%nat os.
+
+(** C03: only the derivatives are compared *)
+Definition check_case_derivs (c : case) : bool :=
+  let '(l, tbl, vtol, dtol, os) := c in
+  wf oq l && forallb (fun o : obs => let '(k, _, _, _, ds) := o in
+                        forallb (fun md => agree (qderiv l k (fst md)) (snd md) dtol) ds) os.
